@@ -35,6 +35,26 @@ def check_hop_loop(ctx, r, fn, raw):
     if not ttl_ok:
         ctx.fail(r, fn, "no hops > ttl test", fn.line, "the hop loop has no hops > ttl test any more")
         return
+    # the limit is the socket's current NNG_OPT_MAXTTL, read when the message is handled (not a copy made earlier)
+    from . import guards as G2
+    for b in ttl_ok:
+        c = fn.cond(b)
+        lim = c["rhs"] if c is not None and c.get("k") == "bin" else None
+        if lim is None:
+            continue
+        v = G2.resolve(fn, lim, (b, len(fn.blocks[b].elems)))
+        src = None
+        if v is not None and v.get("k") == "call" and v.get("fn", "").startswith("nni_atomic_get") and v["args"]:
+            a0 = fn.expand(v["args"][0])
+            src = last_field(a0)
+        elif v is not None and v.get("k") == "mem":
+            src = last_field(v)
+        if src and src.split(".")[0].endswith("_sock"):
+            r.ob(fn, "hop limit read from %s when the message is handled" % src)
+        else:
+            ctx.fail(r, fn, "hop limit not read from the socket", fn.line_of(b, 0),
+                     "the limit compared with hops is %s, not the socket's ttl: a change of NNG_OPT_MAXTTL does not take effect for "
+                     "this pipe (messages beyond the new limit are still forwarded)" % (src or show(v)))
     if not len_ok:
         ctx.fail(r, fn, "no len < 4 test", fn.line, "the hop loop has no nni_msg_len(msg) < 4 test any more")
         return
